@@ -130,6 +130,26 @@ def rule_G3(prog, fixture=False):
                     func=f.name, extra=extra)
         else:
             res.add(key, DISCHARGED, where, what, "delegates to a guarded overload", func=f.name, extra=extra)
+    # a brace list needs its own overload: without one, {v} (one element of the element type) is an identity conversion to
+    # `const T&` and selects the scalar fill - a list shorter than the slice is then broadcast instead of rejected
+    by_cls = {}
+    for f in ops:
+        by_cls.setdefault(f.cls, []).append(f)
+    for cls, fs in sorted(by_cls.items()):
+        if not cls.startswith("dsplib::slice_t<"):
+            continue
+        kinds = {(_param_kind(f.params[0]) if f.params else "scalar") for f in fs}
+        has_list = any("initializer_list" in ((f.params[0].get("t") or "") if f.params else "") for f in fs)
+        key = "G3:%s:list-overload" % cls
+        where = "%s:%d" % (prog.rel(fs[0].file), fs[0].line)
+        if "scalar" in kinds and not has_list:
+            res.add(key, VIOLATED, where, "%s::operator= for brace lists" % cls.replace("dsplib::", ""),
+                    "there is a scalar fill operator=(const T&) but no operator=(const std::initializer_list<T>&): `s = {v}` binds to "
+                    "the scalar overload (identity conversion beats the user-defined conversion to an array) and fills the whole slice; "
+                    "`s = {}` fills it with T{} - neither is count-checked")
+        else:
+            res.add(key, DISCHARGED, where, "%s::operator= for brace lists" % cls.replace("dsplib::", ""),
+                    "a dedicated initializer_list overload exists (count-guarded above)" if has_list else "no scalar overload to be confused with")
     res.stats["assignment_overloads"] = len(ops)
     return res
 
